@@ -83,10 +83,13 @@ class Program:
         self.source = "\n".join(self.lines) + "\n"
         for o in self.occs:
             if o.role == "write":
-                d = self.resolve(o.scope, o.name)
-                if d is not None and d.kind in ("var", "let", "const") and o.scope.function() is d.scope.function() \
-                        and o.line < min(ln for ln, _ in d.lines):
-                    d.written_before_decl = True
+                # lian decides by NAME: any declaration of that name later in the same function is affected
+                f = o.scope.function()
+                for sc in self.scopes:
+                    d = sc.decls.get(o.name)
+                    if d is not None and sc.function() is f and d.kind in ("var", "let", "const") \
+                            and o.line < min(ln for ln, _ in d.lines):
+                        d.written_before_decl = True
 
     def _scope(self, kind, parent, line=0, bk=None, name=None):
         s = Scope(kind, parent, line, bk, name)
@@ -311,11 +314,18 @@ def describe_row(bind, d, prog):
     return prog.decl_at.get((d["line"], d["name"], "param" if d["op"] == "parameter_decl" else "decl"))
 
 
-def chosen_kind(d, md, use_scope):
+def chosen_kind(d, md, use_scope, bind=None):
     if d["kind"] == "unresolved":
         return "unresolved"
     if d["kind"] != "decl":
         return d["kind"]
+    if bind is not None and md is not None:
+        # where the row physically sits: a `var` that lian left inside a block
+        blocks, at_top = bind.block_chain(d["stmt_id"])
+        if blocks:
+            use_lines = {s.line for s in use_scope.chain() if s.kind == "block"}
+            if blocks[0][1] not in use_lines and md.scope.kind != "block":
+                return "non-enclosing-block:top-level" if at_top else "non-enclosing-block:var-left-in-block"
     if md is None:
         if d.get("attrs") and "global" in d["attrs"]:
             return "implicit-global-row"
@@ -374,7 +384,7 @@ def compare(unit, prog, bind, lang="javascript"):
                     exp.kind, exp.name, exp.scope.kind + (":" + exp.scope.bk if exp.scope.bk else ""),
                     exp.scope.line, ",".join(str(l) for l, _ in exp.lines))
             if not ok:
-                ck = chosen_kind(d, md, occ.scope)
+                ck = chosen_kind(d, md, occ.scope, bind)
                 got = "unresolved" if d["kind"] == "unresolved" else (
                     "%s %s at line %d%s" % (d.get("op"), d.get("name"), d.get("line", -1),
                                             " (%s %s at line %d)" % (md.kind, md.scope.kind + (":" + md.scope.bk if md.scope.bk else ""), md.scope.line)
